@@ -225,44 +225,63 @@ for _p, _t in _R8.items():
     PROPS[_p]["rule"] += _t
 
 
+# ---- follow-up session: the round-8 changes that their own check had missed (DESIGN.md 12.4)
+_R9 = {
+ "C01": " Plus: 3-8 goroutines calling List/Get flat out (real time) against ONE writer whose reference states are known: a read that began after operation i returned and ended before operation j started returns the content after one of the prefixes i..j; the writer's own List right after its operation returns exactly that prefix's content.",
+ "C02": " Plus: in the concurrent-readers cases a SECOND cache with its own writer is updated at the same time; every batch an operation returns holds exactly the events of that operation on that cache.",
+ "C03": " Plus: a relist that turns up a difference of 2-90 objects followed AT ONCE (changes placed right after the list's snapshot, delivered by the watch session opened at the list's version) by watch events for objects of that difference: replaying a subscriber's stream gives the controller's cache; an object learnt from the watch whose Delete the stream loses is gone after the next completed list whatever that list's ordinal (both parities, names re-used).",
+ "C10": " Plus: a never-reading filtered subscription holding H<100 events when a Refilter produces a batch that only partly fits: it ends with min(H+T,100) events (the H earlier ones in order, then distinct events of the batch), a reading sibling gets all of a batch that fits its emptied buffer.",
+ "C12": " Plus: the user's context is of a hand-written type (own Done channel, opaque to package context) and is never cancelled: after Close / Close x3 / a failing list the census - taken BEFORE that context is cancelled and including the watcher goroutines package context runs for contexts derived from such a parent - is empty.",
+}
+for _p, _t in _R9.items():
+    PROPS[_p]["rule"] += _t
+
+
 # ---- coverage floors (quick tier): half of what a quick run at seed 1 observes; counts that are
 # deterministic by construction (states, pairs of C07, request-checks) are exact; throughput-dependent
 # counters of the real-time stress cases (big-snapshots, stress-typed-reads) are 5%.  A thorough run must
 # reach at least the same.  Generated by mkfloors.py from the evidence files; not tuned per seed.
 FLOORS_QUICK = {
  "C01": {
+  "concurrent-reader-cases": 6,
+  "concurrent-reads": 18452,
   "long-lived-probes": 73,
-  "reads-during-operation": 86,
+  "reads-during-operation": 84,
   "states": 232,
-  "walks": 80
+  "walks": 80,
+  "writer-reads-after-own-write": 4500
  },
  "C02": {
+  "batches-checked-with-another-cache-emitting": 718,
   "ops-silent": 390930,
-  "ops-with-events": 1980214,
+  "ops-with-events": 1980213,
   "states": 232
  },
  "C03": {
   "big-collection-cases": 3,
+  "changes-right-after-a-list-snapshot": 413,
   "convergence-checks": 428,
   "drain-all-phases": 51,
+  "lost-delete-checks": 108,
   "mirror-checks": 364,
   "per-list-checks": 121,
-  "post-list-checks": 180,
+  "post-list-checks": 324,
   "relist-at-reconnect-expiry-cases": 60,
-  "restart-version-checks": 5485,
+  "relist-then-watch-mirror-checks": 144,
+  "restart-version-checks": 5471,
   "status-at-relist-cases": 36
  },
  "C04": {
   "continuity-checks": 666,
-  "reconnect-version-checks": 1013,
-  "reconnects": 1013,
+  "reconnect-version-checks": 1010,
+  "reconnects": 1010,
   "relist-at-reconnect-expiry-cases": 60,
   "relist-during-retry-cases": 8
  },
  "C05": {
   "burst-then-stop-cases": 40,
   "controller-path-leaves": 281,
-  "events-received": 366499,
+  "events-received": 366448,
   "filtered-root-cases": 12,
   "leaves": 1837,
   "mid-burst-closes": 533,
@@ -271,13 +290,13 @@ FLOORS_QUICK = {
   "stale-wire-events": 2362
  },
  "C06": {
-  "filtered-node-checks": 35905,
-  "filtered-node-checks-nonempty": 22044,
+  "filtered-node-checks": 35896,
+  "filtered-node-checks-nonempty": 22023,
   "late-first-filter-cases": 12,
-  "mid-flow-closes": 710,
-  "mirror-checks": 9415,
+  "mid-flow-closes": 709,
+  "mirror-checks": 9437,
   "ready-moments": 640,
-  "refilters": 6467
+  "refilters": 6465
  },
  "C07": {
   "back-to-back-refilters": 4096,
@@ -289,7 +308,7 @@ FLOORS_QUICK = {
   "refilters-with-delta": 5104
  },
  "C08": {
-  "content-at-readiness-checks": 62012,
+  "content-at-readiness-checks": 62019,
   "controller-readiness-cases": 60,
   "directed-stale-inflight-attempts": 50,
   "failed-first-list-cases": 10,
@@ -311,16 +330,18 @@ FLOORS_QUICK = {
   "sibling-joins-closed-mid-stream": 831
  },
  "C10": {
+  "batches-that-partly-fit": 16,
   "blocked-monitors-checked": 44,
   "cache-current-checks": 586,
   "healthy-streams-checked": 232,
+  "partial-batch-checks": 20,
   "resumed-consumer-checks": 48,
   "slow-streams-checked": 47,
   "stalled-consumers-closed-mid-overrun": 8,
   "stalled-refilter-checks": 19,
   "stalled-streams-checked": 171,
   "stress-typed-cases": 8,
-  "stress-typed-reads": 1688
+  "stress-typed-reads": 1430
  },
  "C11": {
   "outside-nodes-checked": 813,
@@ -330,18 +351,19 @@ FLOORS_QUICK = {
   "survivor-rounds": 87
  },
  "C12": {
-  "post-done-api-calls": 42466,
-  "racing-calls": 3689,
+  "opaque-ctx-censuses": 130,
+  "post-done-api-calls": 51896,
+  "racing-calls": 4599,
   "set:trigger-points": 23,
   "stops-at-reconnect-expiry": 48,
-  "terminations": 659
+  "terminations": 789
  },
  "C13": {
   "count-checks": 87,
-  "ctx-consultation-shutdowns": 161,
+  "ctx-consultation-shutdowns": 162,
   "gap-checks": 1566,
   "list-error-cases": 6,
-  "lists": 2068
+  "lists": 2066
  },
  "C14": {
   "failstop-checks": 81,
@@ -350,17 +372,17 @@ FLOORS_QUICK = {
   "stops-at-reconnect-expiry": 24
  },
  "C15": {
-  "big-gets": 2607,
+  "big-gets": 3034,
   "big-histories": 24,
-  "big-snapshots": 4775,
+  "big-snapshots": 6629,
   "cancelled-mid-relist": 12,
   "churn-caches": 960,
   "histories": 160,
   "linearizable": 160,
-  "reads": 10189
+  "reads": 11419
  },
  "C16": {
-  "callbacks": 6732,
+  "callbacks": 6726,
   "close-during-initialize-rounds": 225,
   "exact-stream-checks": 69,
   "init-content-checks": 67,
